@@ -160,7 +160,12 @@ theorem cstr_of_noNul (v : List Byte) (h : v.all (· != 0) = true) : cstr v = v 
 theorem mxArrayToString_mxCreateString (v : List Byte) :
     mxArrayToString (mxCreateString v) = some (cstr v) := by
   unfold mxArrayToString mxCreateString
-  simp only [beq_self_eq_true, if_true, Nat.one_mul]
+  cases hc : cstr v with
+  | nil => simp
+  | cons c r =>
+  rw [← hc]
+  have hne : (cstr v).isEmpty = false := by simp [hc]
+  simp only [beq_self_eq_true, if_true, hne, Bool.false_eq_true, if_false, Nat.one_mul]
   congr 1
   apply List.ext_getElem
   · simp
